@@ -246,6 +246,9 @@ CSPairs == [k : Keys, v : Vals, del : BOOLEAN]
 CSCands == {<<p>> : p \in CSPairs} \cup {<<p, q>> : p \in CSPairs, q \in CSPairs}
 CSCandsB == {<<p>> : p \in CSPairs} \cup {<<p, q>> : p \in {x \in CSPairs : x.v = 0}, q \in {x \in CSPairs : x.v = 0}}
 
+\* keys written or removed since the last commit / load (v2 requires at most one per key and version)
+Touched == {wlog[i].k : i \in 1..Len(wlog)}
+
 \* exhaustive exploration (bounded by MaxVer commits and MaxOps writes per version)
 NextBounded ==
   \/ nops < MaxOps /\ \E k \in Keys, v \in Vals : Set(k, v)
@@ -274,6 +277,10 @@ NextSim ==
     CASE c = "set"      -> \E k \in Keys, v \in Vals : Set(k, v)
       [] c = "setnew"   -> IF KeysOf(work) = Keys THEN \E k \in Keys, v \in Vals : Set(k, v)
                            ELSE \E k \in Keys \ KeysOf(work), v \in Vals : Set(k, v)
+      [] c = "setnf"    -> LET free == Keys \ Touched IN
+                           IF free = {} THEN SaveVersion ELSE \E k \in free, v \in Vals : Set(k, v)
+      [] c = "rmnf"     -> LET cand == KeysOf(work) \ Touched IN
+                           IF cand = {} THEN SaveVersion ELSE \E k \in cand : Remove(k)
       [] c = "setnil"   -> \E k \in Keys : SetNil(k)
       [] c = "rm"       -> \E k \in Keys : Remove(k)
       [] c = "rmhit"    -> IF IsNil(work) THEN \E k \in Keys : Remove(k) ELSE \E k \in KeysOf(work) : Remove(k)
